@@ -153,10 +153,12 @@ def run(ctx, rep):
             first, last = lst.elts[0], lst.elts[-1]
             ok_first = calls_attr(first, attrs["prepare"])
             ok_last = calls_attr(last, attrs["measure"])
-            middle_visits = any(
-                isinstance(n, ast.Call) and any(vcs.node is n and vcs.kind == "visit" for vcs in T.callsites(f))
-                for e in lst.elts[1:-1] for n in ast.walk(e)
-            )
+            visit_nodes = {id(vcs.node) for vcs in T.callsites(f) if vcs.kind == "visit"}
+            middle_visits = False
+            for e in lst.elts[1:-1]:
+                mids, _ = fl.depends(e)
+                if mids & visit_nodes:
+                    middle_visits = True
             if ok_first and ok_last and middle_visits and len(lst.elts) >= 3:
                 rep.ok("C09.1", cons, "[prepare(), *visited body, measure()]", loc)
             else:
@@ -200,8 +202,8 @@ def run(ctx, rep):
     hit = position_visited(ctx, tr, MACRO, "body")
     hit2 = position_visited(ctx, tr, CIRCUIT, "macros")
     h = ix.find_method(vis, "visit_Circuit")
-    if hit or hit2:
-        rep.ok("C09.2", cons, "macro bodies are visited")
+    if hit and hit2:
+        rep.ok("C09.2", cons, "macro definitions are passed to visit and their bodies are visited")
     else:
         rep.violation("C09.2", cons, "macro definitions are copied without visiting their bodies: `macro m { subcircuit { g } }` keeps its subcircuit block", h.loc() if h else ix.classes[vis].loc())
 
